@@ -901,7 +901,10 @@ func sm2P256ReduceDegree(a *sm2P256FieldElement, b *sm2P256LargeFieldElement) {
 				tmp[i+7] -= set7
 				tmp[i+7] -= (x << 24) & bottom28Bits
 				tmp[i+8] += (x << 28) & bottom29Bits
-				if tmp[i+8] < 0x20000000 {
+				// Borrow from tmp[i+9] only if it can give: for x == 1 the term (x>>1)-1 below is -1, and
+				// with tmp[i+9] == 0 it wrapped the unsigned limb to 2^32-1. In that case no borrow is
+				// needed: (x<<28) was just added, so tmp[i+8] >= 2^28 > 1 + x>>4.
+				if tmp[i+8] < 0x20000000 && (x > 1 || tmp[i+9] != 0) {
 					tmp[i+8] += 0x20000000 & xMask
 					tmp[i+8] -= 1
 					tmp[i+8] -= x >> 4
@@ -915,7 +918,10 @@ func sm2P256ReduceDegree(a *sm2P256FieldElement, b *sm2P256LargeFieldElement) {
 				tmp[i+7] -= set7 // 借位
 				tmp[i+7] -= (x << 24) & bottom28Bits
 				tmp[i+8] += (x << 28) & bottom29Bits
-				if tmp[i+8] < 0x20000000 {
+				// Borrow from tmp[i+9] only if it can give: for x == 1 the term (x>>1)-1 below is -1, and
+				// with tmp[i+9] == 0 it wrapped the unsigned limb to 2^32-1. In that case no borrow is
+				// needed: (x<<28) was just added, so tmp[i+8] >= 2^28 > 1 + x>>4.
+				if tmp[i+8] < 0x20000000 && (x > 1 || tmp[i+9] != 0) {
 					tmp[i+8] += 0x20000000 & xMask
 					tmp[i+8] -= x >> 4
 					tmp[i+9] += ((x >> 1) - 1) & xMask
